@@ -94,6 +94,7 @@ func AddRepository(ctx context.Context, url string) error {
 	if err := os.Rename(tmpFile.Name(), filepath.Join(repositoriesDir, repo.Slug)); err != nil {
 		return fmt.Errorf("couldn't move repository entry into place: %w", err)
 	}
+	simhook.CrashPoint("repository.after_rename")
 
 	return nil
 }
